@@ -186,6 +186,7 @@ func (fr *Frame) call(v ssa.Value, cc *ssa.CallCommon, st *State, ins ssa.Instru
 			how = "assumed library contract"
 		}
 		c.callees[name] = how
+		fr.aliasCheckCall(fc, callee, cc, st, pos)
 		fr.applyContract(fc, callee, sig, termArgs(), st, pos, v, name, false)
 		return
 	}
